@@ -42,6 +42,7 @@ func FBP(reftree *tree.Tree, boottrees <-chan tree.Trees, cpus int, sup *Support
 	for cpu := 0; cpu < cpus; cpu++ {
 		wg.Add(1)
 		go func(cpu int) {
+			defer wg.Done()
 			var inerr error
 			for treeV := range boottrees {
 				edgeIndex := tree.NewEdgeIndex(uint64(len(edges)*2), 0.75)
@@ -52,11 +53,11 @@ func FBP(reftree *tree.Tree, boottrees <-chan tree.Trees, cpus int, sup *Support
 					err = treeV.Err
 					return
 				} else {
-					if inerr = treeV.Tree.ReinitIndexes(); err != nil {
+					if inerr = treeV.Tree.ReinitIndexes(); inerr != nil {
 						err = inerr
 						return
 					}
-					if inerr = reftree.CompareTipIndexes(treeV.Tree); err != nil {
+					if inerr = reftree.CompareTipIndexes(treeV.Tree); inerr != nil {
 						err = inerr
 						return
 					}
@@ -79,7 +80,6 @@ func FBP(reftree *tree.Tree, boottrees <-chan tree.Trees, cpus int, sup *Support
 				}
 				sup.IncrementProgress()
 			}
-			wg.Done()
 		}(cpu)
 	}
 
